@@ -41,7 +41,7 @@ BaseField(f, i) ==
     [] f.k = "bool"   -> {<<f.name, TRUE>>}
     [] f.k = "char"   -> {<<f.name, 33 + i>>}
     [] f.k = "enum"   -> {<<f.name, MaxName(f.table)>>}
-    [] f.k = "flags"  -> {<<f.name, {n \in DOMAIN f.table : (MinBit(f.table[n]) + i) % 2 = 0}>>}
+    [] f.k = "flags"  -> {<<f.name, SetToSeq({n \in DOMAIN f.table : (MinBit(f.table[n]) + i) % 2 = 0})>>}
     [] f.k = "str"    -> {<<f.name, IF f.w = 8 /\ f.name = "version" THEN <<48, 46, 55, 69>> ELSE T(IF f.w > 6 THEN 5 + (i % 2) ELSE 2, 65 + i)>>}
     [] f.k = "vstr"   -> {<<f.name, T(5, 97 + i)>>}
     [] f.k = "dur"    -> {<<f.name, IF f.w = 2 THEN Dur((1234 + i) * f.scale) ELSE Dur((100000 + i) * f.scale)>>}
@@ -61,7 +61,7 @@ BaseField(f, i) ==
     [] f.k = "vecip"  -> {<<f.name, << <<1, 2, 3, 4>>, <<5, 6, 7, 8>> >> >>}
     [] f.k = "small"  -> {<<f.name, SmallBase>>}
     [] f.k = "cim"    -> {<<f.name, CimRec("Garage", "Tyres", 0)>>}
-    [] f.k = "cars"   -> {<<f.name, {"XFG", "FBM"}>>}
+    [] f.k = "cars"   -> {<<f.name, <<"XFG", "FBM">> >>}
     [] OTHER -> {}
 BasePairs(fs, i, salt) == IF i > Len(fs) THEN {} ELSE BaseField(fs[i], i + salt) \cup BasePairs(fs, i + 1, salt)
 BaseRec(fs, salt) == LET ps == BasePairs(fs, 1, salt) IN [n \in {p[1] : p \in ps} |-> (CHOOSE p \in ps : p[1] = n)[2]]
@@ -73,9 +73,9 @@ AllSmall ==
   \cup {SmallRec("Nli", d, 0, 0, 0, 0) : d \in {Dur(0), Dur(1), DurL(<<65535, 65535, 0, 0>>)}}
   \cup {SmallRec("Vta", 0, a, 0, 0, 0) : a \in DOMAIN VtnActionT}
   \cup {SmallRec("Tms", 0, 0, b, 0, 0) : b \in BOOLEAN}
-  \cup {SmallRec("Alc", 0, 0, 0, 0, c) : c \in {{}, DOMAIN PlcCarsT} \cup {{n} : n \in DOMAIN PlcCarsT}}
-  \cup {SmallRec("Lcs", 0, 0, 0, {m \in DOMAIN LcsFlagsT : LcsFlagsT[m] \subseteq LcsFlagsT[n]}, 0) : n \in DOMAIN LcsFlagsT}
-  \cup {SmallRec("Lcl", 0, 0, 0, {m \in DOMAIN LclFlagsT : LclFlagsT[m] \subseteq LclFlagsT[n]}, 0) : n \in DOMAIN LclFlagsT}
+  \cup {SmallRec("Alc", 0, 0, 0, 0, c) : c \in {<<>>, SetToSeq(DOMAIN PlcCarsT)} \cup {<<n>> : n \in DOMAIN PlcCarsT}}
+  \cup {SmallRec("Lcs", 0, 0, 0, SetToSeq({m \in DOMAIN LcsFlagsT : LcsFlagsT[m] \subseteq LcsFlagsT[n]}), 0) : n \in DOMAIN LcsFlagsT}
+  \cup {SmallRec("Lcl", 0, 0, 0, SetToSeq({m \in DOMAIN LclFlagsT : LclFlagsT[m] \subseteq LclFlagsT[n]}), 0) : n \in DOMAIN LclFlagsT}
 AllCim ==
      {CimRec("Normal", s, 0) : s \in DOMAIN CimNormalT} \cup {CimRec("Garage", s, 0) : s \in DOMAIN CimGarageT}
   \cup {CimRec("ShiftU", s, t) : s \in DOMAIN CimShiftUT, t \in {0, 255}}
@@ -91,7 +91,7 @@ FieldDom(f, base) ==
     [] f.k = "bool"   -> BOOLEAN
     [] f.k = "char"   -> {0, 33, 65, 127, 255}
     [] f.k = "enum"   -> DOMAIN f.table
-    [] f.k = "flags"  -> {{}, DOMAIN f.table} \cup {{n} : n \in DOMAIN f.table}
+    [] f.k = "flags"  -> {<<>>, SetToSeq(DOMAIN f.table)} \cup {<<n>> : n \in DOMAIN f.table}
     [] f.k = "str"    -> IF f.name = "version" THEN {<<48, 46, 54, 86, 51>>, <<48, 46, 55, 70, 49, 50>>} ELSE {T(n, 97) : n \in {0, 1, f.w - 1}}
     [] f.k = "vstr"   -> {T(n, 65) : n \in {1, 2, 3, 5, f.max - 3}}
     [] f.k = "dur"    -> IF f.w = 2 THEN {Dur(0), Dur(f.scale), Dur(65535 * f.scale)}
@@ -112,7 +112,7 @@ FieldDom(f, base) ==
     [] f.k = "vecip"  -> {[j \in 1..n |-> <<j, 2, 3, 4>>] : n \in {0, 1, 3}}
     [] f.k = "small"  -> AllSmall
     [] f.k = "cim"    -> AllCim
-    [] f.k = "cars"   -> {{}, DOMAIN PlcCarsT} \cup {{n} : n \in DOMAIN PlcCarsT}
+    [] f.k = "cars"   -> {<<>>, SetToSeq(DOMAIN PlcCarsT)} \cup {<<n>> : n \in DOMAIN PlcCarsT}
     [] OTHER -> {}
 
 Named(fs) == {i \in 1..Len(fs) : fs[i].name # ""}
